@@ -197,6 +197,15 @@ def run(repo, rep, tier):
                 rep.ok("R-C07-1", s.where, f"arg {unparse(arg)} core dims {dims}", "; ".join(dict.fromkeys(whys)))
     rep.floor("R-C07-1", "arguments with core dimensions", nargs, 25)
 
+    # ---- R-C07-4: dask-only metadata agrees with the kernels -------------------------------------------
+    rep.rule("R-C07-4", "output_sizes declared for dask (ignored in memory) equals what the kernel returns on every path, so "
+                        "lazy and in-memory results have the same shape")
+    from .c03 import wrapper_sizes, KERNELS, HP01
+    lead = dict(KERNELS)
+    lead.update(HP01)
+    sub_before = len(rep.findings)
+    wrapper_sizes(repo, _Relabel(rep, "R-C07-4"), lead)
+
     # ---- R-C07-2: GIL ---------------------------------------------------------------
     wrap = CFile(os.path.join(repo.root, WRAP_C), filt="specpart", need_python=True)
     core = CFile(os.path.join(repo.root, SPECPART_C))
@@ -245,6 +254,25 @@ def run(repo, rep, tier):
             "core dimension is single-chunk along it on every path (accepted idioms: chunk({d:-1}), allow_rechunk, dimension "
             "coordinate); clang AST of the wrapper and of specpart.c shows no GIL release and no Python API call, so every "
             "access to the static work buffers is serialised for any scheduler.")
+
+
+class _Relabel:
+    """Report proxy that files shared-rule results under this property's rule id."""
+
+    def __init__(self, rep, rule):
+        self._rep, self._rule = rep, rule
+
+    def ok(self, rule, *a, **k):
+        return self._rep.ok(self._rule, *a, **k)
+
+    def fail(self, rule, *a, **k):
+        return self._rep.fail(self._rule, *a, **k)
+
+    def floor(self, rule, *a, **k):
+        return self._rep.floor(self._rule, *a, **k)
+
+    def __getattr__(self, n):
+        return getattr(self._rep, n)
 
 
 def _strip_comments(src):
